@@ -259,6 +259,19 @@ def abort_histories():
             main['variants'] = [{'kind': 'H', 'state': False, 'calls': [last]}]
             main['meta'] = {'abort': True}
             out.append(main)
+    # the same without reset in the following call, after aborted documents that legitimately leave nothing behind (no
+    # definition, id, option or pending attribute): lists whose nested item text invokes an undefined macro, so that the
+    # abort happens while list markers are open (seed C10_i: the marker stack cleared by reset only)
+    clean = ["* a\n- b {undef}", ". a\n.. b\n{undef}\n", "- a\n* b\n. c {undef}\n- d", "t:: d\n- x {undef}", "* a\n\n- b\n  {undef}",
+             "..\n- a\n* b {undef}\n..", "- a {undef}", "para {undef}"]
+    for a, q in __import__('itertools').product(clean, probes):
+        for mode in (0, 1):
+            last = {'src': q, 'safeMode': mode, 'cb': True}
+            main = {'kind': 'H', 'state': False, 'continue_after_raise': True,
+                    'calls': [{'src': a, 'safeMode': 0, 'reset': True, 'cb': 'raise'}, last]}
+            main['variants'] = [{'kind': 'H', 'state': False, 'calls': [last]}]
+            main['meta'] = {'abort': True}
+            out.append(main)
     return out
 
 
